@@ -224,6 +224,8 @@ impl<'b, 'a> Parser<'a, 'b> {
             return false;
         }
 
+        // the pieces replace the current token: whatever trivia precedes it goes first
+        self.eat_trivia();
         let mut prev_end = 0;
         for (range, kind) in buf.drain(..) {
             assert_eq!(range.start, prev_end, "split cannot have gaps");
